@@ -13,7 +13,7 @@
    The invariants of C15 and the ring-evolution facts of C16 are then proved per micro-step. *)
 From Coq Require Import List NArith ZArith Arith Bool Lia.
 From RecordUpdate Require Import RecordUpdate.
-From Iodine Require Import Generated.SrcConsts Base Codec Hostname DnsName DnsMsg Domain Server ServerFrame.
+From Iodine Require Import Generated.SrcConsts Base Codec Hostname DnsName DnsMsg Domain Server ServerRings.
 Import ListNotations.
 Local Open Scope N_scope.
 
